@@ -3,7 +3,7 @@ import z3
 from pyvc.run import Prop, Lemma
 from pyvc.contracts import REGISTRY
 import contracts  # noqa
-from contracts.dt_var import INIT, ORDERV, MODS, VAR
+from contracts.dt_var import INIT, ORDERV, MODS, VAR, CFORMAT
 from native import c15 as native_c15
 
 S = z3.StringSort()
@@ -63,7 +63,7 @@ def _bounded(tier):
 
 PROP = Prop(
     'C15',
-    contracts=[REGISTRY[k] for k in INIT + ORDERV + MODS] + [REGISTRY[VAR + '.render#truncate']],
+    contracts=[REGISTRY[k] for k in INIT + ORDERV + MODS + CFORMAT] + [REGISTRY[VAR + '.render#truncate']],
     claims=['*::C15.*', 'C15.lemma.*'],
     lemmas=LEMMAS,
     native_default=native_c15.native_for,
